@@ -105,7 +105,8 @@ class Ctx:
     # ---------------------------------------------------------------- TLC
     def spec_dir(self, *subdirs):
         """Copy spec modules from specs/<subdir> (and specs/lib) into a fresh work dir."""
-        d = os.path.join(self.work, "tlc%d" % len(os.listdir(self.work)))
+        self._ndirs = getattr(self, "_ndirs", 0) + 1
+        d = os.path.join(self.work, "tlc%d_%d" % (self._ndirs, len(os.listdir(self.work))))
         os.makedirs(d)
         for s in ("lib",) + subdirs:
             sd = os.path.join(VERIF, "specs", s)
@@ -307,7 +308,8 @@ class Ctx:
             ov["Replace"][dst] = src
         for dst, src in (extra_files or {}).items():
             ov["Replace"][os.path.join(REPO, dst)] = os.path.join(VERIF, "harness", src)
-        ovp = os.path.join(self.work, "overlay%d.json" % len(os.listdir(self.work)))
+        self._novl = getattr(self, "_novl", 0) + 1
+        ovp = os.path.join(self.work, "overlay%d_%d.json" % (self._novl, len(os.listdir(self.work))))
         with open(ovp, "w") as f:
             json.dump(ov, f)
         e = dict(os.environ)
@@ -327,7 +329,7 @@ class Ctx:
         except subprocess.TimeoutExpired:
             raise Broken("go test timed out: %s %s" % (pkg, run))
         out = p.stdout
-        with open(os.path.join(self.work, "gotest%d.out" % len(os.listdir(self.work))), "w") as f:
+        with open(os.path.join(self.work, "gotest%d_%d.out" % (self._novl, len(os.listdir(self.work)))), "w") as f:
             f.write(out)
         if "[build failed]" in out or "[setup failed]" in out:
             raise Broken("harness for %s does not build against the current tree:\n%s" % (pkg, out[-3000:]))
